@@ -126,7 +126,7 @@ def render(v):
     (no '[{', '},{', '}]', '[]' sequences) and keeps '"key":{' compact for substring tests."""
     if _is_obj(v):
         parts = []
-        for k in v["__keys"]:
+        for k in (v["__keys"] or []):
             val = v["__obj"][k]
             if _is_obj(val):
                 parts.append('%s:%s' % (json.dumps(k), render(val)))
@@ -157,7 +157,7 @@ def compose_message(header_byte, docs, contains):
         any_ok = True
         doc = d.get("doc")
         if _is_obj(doc):
-            for k in doc["__keys"]:
+            for k in (doc["__keys"] or []):
                 if k in keys_seen:
                     continue
                 keys_seen.add(k)
@@ -398,6 +398,7 @@ class Check:
         self.replays_run = 0
         self.replays_ok = 0
         self.extra = {}
+        self.hard_incomplete = False
 
     def add_run(self, name, results, meta, expect_covers=()):
         if results is None:
@@ -417,6 +418,7 @@ class Check:
                 self.samples.append({"entry": entry, "path": s})
             if r["incomplete"]:
                 self.inconclusive.append("%s: %s" % (entry, "; ".join(sorted(set(r["incomplete"]))[:5])))
+                self.hard_incomplete = True
             if r["queries"].get("Unknown") or r["queries"].get("Errors"):
                 self.inconclusive.append("%s: solver answered unknown/error %d/%d times" % (entry, r["queries"].get("Unknown", 0), r["queries"].get("Errors", 0)))
             for c in expect_covers:
